@@ -215,6 +215,8 @@ Definition kexists (fs : fsys) (p : str) : bool :=
   match kstat fs p with KFile _ | KDir _ => true | _ => false end.
 Definition kisdir (fs : fsys) (p : str) : bool :=
   match kstat fs p with KDir _ => true | _ => false end.
+Definition kisfile (fs : fsys) (p : str) : bool :=
+  match kstat fs p with KFile _ => true | _ => false end.
 
 (* ---------- observable result ---------- *)
 
@@ -305,6 +307,13 @@ Definition get_file_path (strict : bool) (cwd sp id : str) : option str :=
   let f := sess_file sp id in
   if guard_sess strict cwd sp f then Some f else None.
 
+(** _exists: a path ending in the lock suffix is the lock file of another
+    session, never a session - answered False without a file-system call;
+    otherwise os.path.isfile(path): one stat, true only for a regular file
+    (an id naming a directory below storage_path is not adopted) *)
+Definition exists_call (fs : fsys) (f : str) : bool * list op :=
+  if endswith f s_lock then (false, []) else (kisfile fs f, [(0, f)]).
+
 (** _regenerate's loop: first generated id whose file does not exist *)
 Fixpoint fresh_id (strict : bool) (cwd sp : str) (fs : fsys) (gens : list str)
          (acc : list op) : option (option (str * str * list str * list op)) :=
@@ -315,8 +324,9 @@ Fixpoint fresh_id (strict : bool) (cwd sp : str) (fs : fsys) (gens : list str)
     match get_file_path strict cwd sp g with
     | None => Some None
     | Some f =>
-      if kexists fs f then fresh_id strict cwd sp fs rest (acc ++ [(0, f)])
-      else Some (Some (g, f, rest, acc ++ [(0, f)]))
+      let '(ex, eops) := exists_call fs f in
+      if ex then fresh_id strict cwd sp fs rest (acc ++ eops)
+      else Some (Some (g, f, rest, acc ++ eops))
     end
   end.
 
@@ -324,7 +334,8 @@ Fixpoint fresh_id (strict : bool) (cwd sp : str) (fs : fsys) (gens : list str)
     action: 0 handler ignores the session, 1 reads a key (load, then save),
     2 session.delete(), 3 session.regenerate().
     tags: 10 id adopted, 11 id not found -> new id, 12 no cookie, 13 rejected
-    (400), 14 adopted but unusable (directory: save fails), 15 out of ids *)
+    (400), 14 current session file is a directory: save fails (not reachable
+    since _exists adopts regular files only), 15 out of ids *)
 Definition sess_request (strict : bool) (cwd sp_cfg : str) (id : option str)
            (action : Z) (gens : list str) (fs : fsys) : res :=
   let sp := abspath cwd sp_cfg in
@@ -341,9 +352,10 @@ Definition sess_request (strict : bool) (cwd sp_cfg : str) (id : option str)
       match get_file_path strict cwd sp i with
       | None => inl 13
       | Some f =>
-        if kexists fs f then inr (10, i, f, gens, [(0, f)])
+        let '(ex, eops) := exists_call fs f in
+        if ex then inr (10, i, f, gens, eops)
         else
-          match fresh_id strict cwd sp fs gens [(0, f)] with
+          match fresh_id strict cwd sp fs gens eops with
           | None => inl 15
           | Some None => inl 13
           | Some (Some (g, f', rest, ops)) => inr (11, g, f', rest, ops)
